@@ -13,7 +13,8 @@ EXHAUSTIVE = {'quick': True, 'thorough': True}
 RULE = ('complete enumeration per logic: every subset of the literal constraints {p+, p-, ~p+, ~p-} (classical: {p, ~p}) '
         'on one subject (sentence letter, predication, uninterpreted sentence) in every insertion order at one world; '
         'classical family also every subset/order of {a=a, ~a=a, E!a, ~E!a} and of {a=b, ~a=b, b=a, ~b=a}; modal logics also every two-element '
-        'subset split over two worlds (must stay open unless it closes at one world... i.e. never closes across worlds). '
+        'subset split over two worlds (must stay open unless it closes at one world... i.e. never closes across worlds), and every one- and two-element '
+        'set at world 0 on a crowded branch (one of the literals already present at eight other worlds). '
         'Oracle: closed <=> no reference value of p satisfies all constraints; if open, the value read by the model '
         'builder satisfies all of them and the library evaluator agrees. Each (logic, subject, subset, order) is one '
         'distinct non-trivial obligation.')
@@ -77,15 +78,24 @@ def build_branch(name, items):
     return tab, b
 
 
-def check_set(name, subj_kind, subj, cons, worlds=None):
-    """cons: ordered list of constraints; worlds: optional list of worlds per constraint."""
+CROWD = 8
+
+
+def check_set(name, subj_kind, subj, cons, worlds=None, crowd=None):
+    """cons: ordered list of constraints; worlds: optional list of worlds per constraint; crowd: a constraint that is put
+    on the branch first at CROWD other worlds (a branch on which the same sentence already occurs many times)."""
     w0 = 0 if R.is_modal(name) else None
     items = []
+    if crowd is not None:
+        neg_, d_ = crowd
+        items += [(A.neg(subj) if neg_ else subj, d_, w) for w in range(1, CROWD + 1)]
     for i, (neg, d) in enumerate(cons):
         s = A.neg(subj) if neg else subj
         items.append((s, d, worlds[i] if worlds else w0))
     fam = R.base_of(name) + '*'
     label = ','.join(cname(c) + (f'@w{worlds[i]}' if worlds else '') for i, c in enumerate(cons))
+    if crowd is not None:
+        label = f'{cname(crowd)}@w1..w{CROWD} first; then ' + label
     try:
         tab, b = build_branch(name, items)
     except Exception as e:
@@ -208,6 +218,14 @@ def obligations(name):
             for sub in combinations(cons, 2):
                 for order in permutations(sub):
                     yield ('set', kind, subj, list(order), [0, 1])
+            # crowded branches: the same sentence already sits at eight other worlds (lookups that switch strategy
+            # with the number of occurrences must still find -- and only find -- the partner at the same world)
+            if kind == 'atom':
+                for crowd in cons:
+                    for r in (1, 2):
+                        for sub in combinations(cons, r):
+                            for order in permutations(sub):
+                                yield ('set', kind, subj, list(order), None, crowd)
     if R.is_classical(name):
         for order in classical_extras(name):
             yield ('extra', order)
@@ -225,11 +243,12 @@ def run_shard(shard, acc):
         first = True
         for ob in obligations(name):
             if ob[0] == 'set':
-                _, kind, subj, cons, worlds = ob
-                res = check_set(name, kind, subj, cons, worlds)
-                key = (name, kind, [cname(c) for c in cons], worlds)
+                _, kind, subj, cons, worlds, *rest = ob
+                crowd = rest[0] if rest else None
+                res = check_set(name, kind, subj, cons, worlds, crowd)
+                key = (name, kind, [cname(c) for c in cons], worlds, cname(crowd) if crowd else None)
                 case = dict(kind='set', logic=name, subject_kind=kind, subject=A.to_json(subj),
-                            constraints=[list(c) for c in cons], worlds=worlds)
+                            constraints=[list(c) for c in cons], worlds=worlds, crowd=list(crowd) if crowd else None)
                 sample = f'{name}: {A.show(subj)} with literals [{", ".join(cname(c) for c in cons)}]' if first and len(cons) > 1 else None
             else:
                 order = ob[1]
@@ -247,6 +266,6 @@ def run_shard(shard, acc):
 def replay(case):
     if case['kind'] == 'set':
         return check_set(case['logic'], case['subject_kind'], A.from_json(case['subject']),
-                         [tuple(c) for c in case['constraints']], case['worlds'])
+                         [tuple(c) for c in case['constraints']], case['worlds'], tuple(case['crowd']) if case.get('crowd') else None)
     f = check_classical_extra if case['kind'] == 'extra' else check_identity_pair
     return f(case['logic'], [(n, A.from_json(s)) for n, s in case['order']])
